@@ -376,6 +376,16 @@ class FakeRepo:
         return (0, b"", b"")
 
 
+REALISTIC_FAILURES = {
+    "commit": (1, b"On branch main\nnothing to commit, working tree clean\n", b""),
+    "tag": (128, b"", b"fatal: tag 'x' already exists\n"),
+    "push": (1, b"", b"error: failed to push some refs to 'origin'\nhint: Updates were rejected because the remote contains work\n"),
+    "fetch": (128, b"", b"fatal: unable to access 'https://example.com/': Could not resolve host: example.com\n"),
+    "add": (128, b"", b"fatal: pathspec 'x' did not match any files\n"),
+    "status": (128, b"", b"fatal: not a git repository (or any of the parent directories): .git\n"),
+}
+
+
 class Fault:
     """A fault armed for one invocation.
 
@@ -383,21 +393,22 @@ class Fault:
           'fail_role' (first crossing with that role), 'enoent_at' (k-th crossing raises OSError ENOENT),
           'missing_binary' (every spawn raises ENOENT)"""
 
-    def __init__(self, kind, k=None, role=None, rc=128):
+    def __init__(self, kind, k=None, role=None, rc=128, realistic=False):
         self.kind = kind
         self.k = k
         self.role = role
         self.rc = rc
+        self.realistic = realistic     # mimic the exit code and output git itself gives for the typical failure of that step
         self.fired = 0
 
     def to_json(self):
-        return {"kind": self.kind, "k": self.k, "role": self.role, "rc": self.rc}
+        return {"kind": self.kind, "k": self.k, "role": self.role, "rc": self.rc, "realistic": self.realistic}
 
     @staticmethod
     def from_json(d):
         if d is None:
             return None
-        return Fault(d["kind"], d.get("k"), d.get("role"), d.get("rc", 128))
+        return Fault(d["kind"], d.get("k"), d.get("role"), d.get("rc", 128), d.get("realistic", False))
 
 
 class VcsShim:
@@ -457,8 +468,12 @@ class VcsShim:
             raise OSError(errno.ENOENT, "No such file or directory: %r (injected)" % argv[0])
         if hit == "cpe":
             self.fault.fired += 1
-            ev["rc"] = self.fault.rc
             ev["fault"] = True
+            if self.fault.realistic:
+                rc, out, err = REALISTIC_FAILURES.get(role, (self.fault.rc, b"", b"injected failure\n"))
+                ev["rc"] = rc
+                return (rc, out, err)
+            ev["rc"] = self.fault.rc
             return (self.fault.rc, b"", b"injected failure\n")
         if self.repo is not None:
             try:
